@@ -109,7 +109,8 @@ def wire_request(wb, model, focus, sets, fuel=60):
             text = '=' + render(c[1], addr.split('!')[0])
             cells.append(f'{cp(addr)}~f~{len(text)}~{evalwire.wire_fx(c[1])}')
         elif c is None:
-            cells.append(f'{cp(addr)}~c~T:')
+            # a placeholder created by build_ranges: None (blank) since b6c2c71, '' before
+            cells.append(f'{cp(addr)}~c~{wire_scalar(cell.value)}')
         else:
             cells.append(f'{cp(addr)}~c~{wire_scalar(c)}')
     ranges = [cp(k) + '~' + ';'.join(','.join(cp(a) for a in row) for row in r.cells)
